@@ -10,6 +10,7 @@ import (
 
 	"github.com/ipfs/go-cid"
 	"github.com/ipni/go-libipni/dagsync"
+	"github.com/libp2p/go-libp2p/core/peer"
 )
 
 // Step is one instruction of a drawn script for the subscriber-level checks (C08, C14, C15).
@@ -37,6 +38,22 @@ type Op struct {
 	Head       cid.Cid // announce: the announced head
 	Start      int     // len(R) when issued (lower bound)
 	AfterClose bool    // a Close call had certainly returned before this call was issued
+	Ent        []cid.Cid // entries: the chunks of the chain to sync, oldest first
+	smu        sync.Mutex
+	scoped     []cid.Cid // entries: the calls of this sync's scoped hook
+}
+
+// Scoped returns the calls made to this entries sync's scoped block hook.
+func (o *Op) Scoped() []cid.Cid {
+	o.smu.Lock()
+	defer o.smu.Unlock()
+	return append([]cid.Cid(nil), o.scoped...)
+}
+
+// Mark is the state of one publisher's observations when its handler was removed.
+type Mark struct {
+	Hooks, Events, Announced, Ops int
+	Latest                        cid.Cid
 }
 
 func (o *Op) Done() bool { return o.done.Load() }
@@ -121,12 +138,13 @@ type Exec struct {
 	HoldBursts                                 []string
 	handlerRemoved                             bool
 	BadAnnounces                               int
+	Marks                                      map[int][]Mark // per publisher: RemoveHandler points (a new epoch starts)
 	freezeOnce                                 sync.Once
 	frozenFlag                                 atomic.Bool
 }
 
 func NewExec(w *World, sc Script, discovery bool, opts ...dagsync.Option) (*Exec, error) {
-	e := &Exec{W: w, FailHeads: map[string]bool{}, CloseAt: -1, Excluded: map[string]int{}, dirty: map[int]bool{}}
+	e := &Exec{W: w, FailHeads: map[string]bool{}, CloseAt: -1, Excluded: map[string]int{}, dirty: map[int]bool{}, Marks: map[int][]Mark{}}
 	for i := 0; i < sc.K; i++ {
 		p := w.AddPublisher(i, discovery, "")
 		p.ExtendAds(1)
@@ -215,7 +233,7 @@ func (e *Exec) busy(p int) bool {
 		return true
 	}
 	for _, o := range e.Ops {
-		if o.P == p && (o.Kind == "sync" || o.Kind == "announce") && !o.Done() {
+		if o.P == p && (o.Kind == "sync" || o.Kind == "announce" || o.Kind == "entries") && !o.Done() {
 			return true
 		}
 	}
@@ -299,6 +317,36 @@ func (e *Exec) Run(i int, st Step, knownStaleStop bool) {
 		e.start("sync", st.P, i, func(o *Op) {
 			o.Cid, o.Err = e.S.S.SyncAdChain(ctx, info)
 		})
+	case "entries":
+		// an explicit sync of a fresh entries chain of N chunks with its own (scoped) block hook
+		if e.CloseAt >= 0 {
+			return
+		}
+		p := e.Pubs[st.P]
+		ent := p.BuildEntries(st.N, 1000+i)
+		e.explicitOut++
+		info := p.Info()
+		e.start("entries", st.P, i, func(o *Op) {
+			o.Ent = ent
+			o.Err = e.S.S.SyncEntries(ctx, info, ent[len(ent)-1], dagsync.ScopedBlockHook(func(_ peer.ID, c cid.Cid, _ dagsync.SegmentSyncActions) {
+				o.smu.Lock()
+				o.scoped = append(o.scoped, c)
+				o.smu.Unlock()
+				e.W.Bump()
+			}))
+		})
+	case "rmhandler":
+		// RemoveHandler at a moment when the publisher is certainly idle: its handler (locks, pending announcement,
+		// syncer) is dropped and re-created on demand; latest-sync is kept; one sync at a time still holds
+		if e.CloseAt >= 0 || e.anyHeld() || e.anyParked() || e.busy(st.P) || e.dirty[st.P] {
+			return
+		}
+		synctest.Wait()
+		p := e.Pubs[st.P]
+		latest := e.S.Latest(p.ID)
+		if e.S.S.RemoveHandler(p.ID) {
+			e.Marks[st.P] = append(e.Marks[st.P], Mark{Hooks: e.S.NHooks(), Events: e.S.NEvents(), Announced: len(e.Announced[st.P]), Ops: len(e.Ops), Latest: latest})
+		}
 	case "hold":
 		e.Pubs[st.P].Hold()
 	case "open":
@@ -364,7 +412,7 @@ func (e *Exec) afterSettle() {
 	n := 0
 	for _, o := range e.Ops {
 		// calls issued after Close was called may still get in before Close takes effect: they are explicit syncs too
-		if (o.Kind == "sync" || o.Kind == "post-sync" || o.Kind == "post-entries") && !o.Done() {
+		if (o.Kind == "sync" || o.Kind == "entries" || o.Kind == "post-sync" || o.Kind == "post-entries") && !o.Done() {
 			n++
 		}
 	}
